@@ -173,7 +173,9 @@ func Run(c *vrun.Ctx) error {
 		"the verdict of encoder, frame writer and decoder, and for every structured mutation (truncation at and one byte into / before the end of every token, also inside the first, second and last element of a list; " +
 		"a non-canonical CompactSize at every CompactSize site in every wider width; hostile counts and lengths at every site: limit, limit+1, 0xffff, 0x10000, 2^31, 2^32-1, 2^32, 2^63-1, 2^64-1, body cut off or kept; trailing bytes; " +
 		"27 framing faults and fault pairs) the verdict class (accept / short / malformed / unknown command). Every state is replayed into btcd: bytes = token->bytes rendering with seeded contents, message values built with the same contents. " +
-		"distinct_nontrivial counts distinct (type, version, encoding, shape, mutation class, field, claimed value, cut, verdict) combinations; the unmutated encoding of a case counts as one."
+		"distinct_nontrivial counts distinct (type, version, encoding, shape, mutation class, field, claimed value, cut, verdict) combinations; the unmutated encoding of a case counts as one. " +
+		"Beside it WireBlockApi.tla enumerates every sequence of at most 4 accessor calls (Bytes, BytesNoWitness, Tx(i), Transactions, TxLoc, TxHash(i), Hash) on blocks of 3 and 4 transactions (with and without witness) built by NewBlock, " +
+		"NewBlockFromBytes and NewBlockFromBlockAndBytes; each sequence is one distinct case: every return value and, afterwards, every identifier / cached byte string the API shows must equal the specification's table whatever the order."
 	c.Assume("TLC evaluates the operators of WireLayout.tla correctly (token-level encoders, decoders, sizes, framing pipeline); the lemmas Decode(Encode(m)) = m, Encode(Decode(ts)) = ts, Size = Len(Encode), prefix-freeness, txid/wtxid token laws are invariants of the same run")
 	c.Assume("structured hostile input only: truncations, oversized claims, non-canonical lengths, trailing bytes and framing faults derived from the layout model; this is NOT coverage-guided fuzzing of arbitrary byte strings, and field CONTENTS are seeded pseudo-random values, not adversarial ones")
 	c.Assume("allocation is measured as the growth of the runtime metric /gc/heap/allocs:bytes (every byte allocated during the call, an upper bound of the peak; objects below 32 KiB are counted with a lag of at most about a megabyte) in a single-goroutine child process and compared with AllocFactor x MaxMessagePayload = 8 x 32 MiB from the specification")
@@ -198,10 +200,15 @@ func Run(c *vrun.Ctx) error {
 				Enc   string `json:"enc"`
 				Shape string `json:"shape"`
 				Case  string `json:"case"`
+				Ctor  string `json:"constructor"`
 			} `json:"replay"`
 		}
 		if err := json.Unmarshal(b, &doc); err != nil {
 			return fmt.Errorf("%s: %w", c.Replay, err)
+		}
+		thorough = doc.Tier == "thorough"
+		if doc.Replay.Ctor != "" { // an accessor-order finding: all sequences are replayed again
+			return runBlockApi(c, thorough)
 		}
 		replayID = doc.Replay.Case
 		if replayID == "" {
@@ -214,6 +221,14 @@ func Run(c *vrun.Ctx) error {
 	if thorough {
 		cfg, timeout = "WireCases_thorough.cfg", 28*time.Minute
 	}
+	// the accessor-order cases of btcutil.Block (WireBlockApi.tla) run beside the main enumeration
+	apiErr := make(chan error, 1)
+	if replayID == "" && os.Getenv("VERIF_WIRE_ONLY") == "" {
+		go func() { apiErr <- runBlockApi(c, thorough) }()
+	} else {
+		apiErr <- nil
+	}
+	defer func() { <-apiErr }()
 	res, err := tlc.Run(tlc.Opts{SpecDir: c.SpecDir("wire"), Module: "WireCases", Config: cfg, Workers: 6,
 		Timeout: timeout, Scratch: c.Scratch, HeapGB: 8})
 	if err != nil {
@@ -523,6 +538,10 @@ func Run(c *vrun.Ctx) error {
 	c.SetExtra("largest_decoder_allocation_bytes", maxAlloc)
 	c.SetExtra("largest_decoder_allocation_at", maxAllocAt)
 	c.SetExtra("allocation_bound_bytes", rootExp.AllocFactor*rootExp.MaxMessagePayload)
+	if err := <-apiErr; err != nil {
+		return err
+	}
+	apiErr <- nil // for the deferred receive
 	c.Ev.Coverage.Exhaustive = true
 	c.Ev.Coverage.Explanation = "exhaustive means: every case TLC enumerated from WireCases.tla for this tier, with every mutation and framing fault the specification lists for it, was replayed into btcd. " +
 		"It does not mean every field value or every byte string: values are covered by layout-relevant classes (counts, lengths, flags, version epochs) with seeded pseudo-random contents, " +
